@@ -885,6 +885,28 @@ impl<'a> World<'a> {
                 let c = &self.conns[latest];
                 let processed = c.surfaced + n_in
                     + self.leftover.iter().filter(|(e, cc)| *cc == latest && matches!(e, Ev::In(_))).count();
+                // a state error that names an id was raised by the packet handled last, and
+                // every handled packet is pushed as an Incoming event before it is dispatched:
+                // the last packet accounted for (surfaced or queued) must carry that id. If it
+                // does not while a later packet of the stream does, events of handled packets
+                // are missing
+                if let ErrKind::Unsolicited(id) = e.kind.clone() {
+                    let same_id = |w: &Pk| {
+                        matches!(w, Pk::PubAck { pkid, .. } | Pk::PubRec { pkid, .. } | Pk::PubComp { pkid, .. } | Pk::PubRel { pkid, .. } if *pkid == id)
+                    };
+                    let last_ok = processed > 0 && processed <= c.written.len() && same_id(&c.written[processed - 1]);
+                    if !last_ok {
+                        if let Some(off) = c.written[processed.min(c.written.len())..].iter().position(same_id) {
+                            let u = processed + off;
+                            let a = c.written[u].short();
+                            self.violate(
+                                "processed_packets_not_surfaced:before_unsolicited_ack".into(),
+                                format!("connection #{latest} failed with Unsolicited({id}); the first packet of the broker's stream that can have caused it is {a} (#{u}), but only {processed} of the {} packets up to it were surfaced or are queued as Incoming events", u + 1),
+                            );
+                            return;
+                        }
+                    }
+                }
                 if let Some(u) = c.first_unsol {
                     if processed == u + 1 {
                         self.rep.probe("unsolicited_ack_reported");
